@@ -39,15 +39,18 @@ const (
 
 // Action is the scripted treatment of one request, looked up by the request's tag.
 type Action struct {
-	Delay   time.Duration // wait before answering
-	Hold    int           // answer only after Hold other answers were written on the same conn (bounded by HoldMax)
-	Drop    bool          // never answer
-	ErrCode int16         // answer with this Kafka error code
-	Dup     bool          // write the answer frame twice
-	Once    bool          // the action applies to the FIRST request with this tag only (the script entry is then removed)
-	Late    int           // answer LATE: only once Late later requests have arrived on the same conn (or the conn died, or LateMax passed)
-	Cut     int           // CutNone / CutBefore / CutMid / CutAfter / CutAt / CutSilent
-	CutK    int           // for CutAt / CutSilent: number of bytes written (or CutKLast / CutKMid)
+	Delay    time.Duration // wait before answering
+	Hold     int           // answer only after Hold other answers were written on the same conn (bounded by HoldMax)
+	Drop     bool          // never answer
+	ErrCode  int16         // answer with this Kafka error code
+	Dup      bool          // write the answer frame twice
+	Manual   bool          // answer only after OpenManual() (bounded by 3 s)
+	DripAt   int           // > 0: write the first DripAt bytes of the frame, wait DripHold, then write the rest
+	DripHold time.Duration
+	Once     bool // the action applies to the FIRST request with this tag only (the script entry is then removed)
+	Late     int  // answer LATE: only once Late later requests have arrived on the same conn (or the conn died, or LateMax passed)
+	Cut      int  // CutNone / CutBefore / CutMid / CutAfter / CutAt / CutSilent
+	CutK     int  // for CutAt / CutSilent: number of bytes written (or CutKLast / CutKMid)
 }
 
 // Req is a journal entry for a request decoded by the broker.
@@ -150,8 +153,10 @@ type Broker struct {
 	nParts     int
 	qas        []QA // every (question, answer) pair this broker produced for the split topic / list groups
 
-	produced []string     // values of the records received in produce requests
-	pending  []pendingReq // every decoded request (for AnswerAgain)
+	produced []string             // values of the records received in produce requests
+	pending  []pendingReq         // every decoded request (for AnswerAgain)
+	fetches  map[string]FetchBody // scripted legacy fetch answers by request tag
+	manual   chan struct{}
 
 	// records mode (op trpage): fetch answers with real record batches, per topic
 	records map[string][]RecSpec
@@ -172,6 +177,7 @@ func NewBroker(topics ...string) *Broker {
 		topics:   append([]string(nil), topics...),
 		script:   map[string]Action{},
 		gateOpen: true,
+		manual:   make(chan struct{}),
 		done:     make(chan struct{}),
 	}
 }
@@ -328,6 +334,24 @@ func (b *Broker) AnswerAgain(conn int, tag string, act Action) (k, n int) {
 	b.answer(c, q.ver, q.corr, q.msg, tag, act, nil, 0, 0)
 	k, n, _ = b.CutOf(tag)
 	return k, n
+}
+
+// SetFetch scripts the answers to legacy (v2) fetch requests by tag.
+func (b *Broker) SetFetch(m map[string]FetchBody) {
+	b.mu.Lock()
+	b.fetches = m
+	b.mu.Unlock()
+}
+
+// OpenManual releases every answer whose action has Manual set.
+func (b *Broker) OpenManual() {
+	b.mu.Lock()
+	select {
+	case <-b.manual:
+	default:
+		close(b.manual)
+	}
+	b.mu.Unlock()
 }
 
 // Produced returns the values of all records received in produce requests so far.
@@ -588,6 +612,17 @@ func (b *Broker) answer(c *bconn, ver int16, corr int32, msg protocol.Message, t
 		}
 		limit.Stop()
 	}
+	if act.Manual {
+		t := time.NewTimer(3 * time.Second)
+		select {
+		case <-b.manual:
+		case <-t.C:
+		case <-b.done:
+			t.Stop()
+			return
+		}
+		t.Stop()
+	}
 	if act.Late > 0 {
 		max := b.LateMax
 		if max == 0 {
@@ -635,7 +670,18 @@ func (b *Broker) answer(c *bconn, ver int16, corr int32, msg protocol.Message, t
 	if res == nil {
 		res = b.recordsAnswer(msg)
 	}
-	if res != nil {
+	var rawFetch []byte
+	if fm, ok := msg.(*fetch.Request); ok && ver == 2 && len(fm.Topics) == 1 && len(fm.Topics[0].Partitions) == 1 {
+		b.mu.Lock()
+		fb, ok := b.fetches[tag]
+		b.mu.Unlock()
+		if ok {
+			rawFetch = FetchFrameV2(corr, fm.Topics[0].Topic, fm.Topics[0].Partitions[0].Partition, fm.Topics[0].Partitions[0].PartitionMaxBytes, fb)
+		}
+	}
+	if rawFetch != nil {
+		frame = rawFetch
+	} else if res != nil {
 		var buf bytes.Buffer
 		if err = protocol.WriteResponse(&buf, ver, corr, res); err == nil {
 			frame = buf.Bytes()
@@ -680,6 +726,28 @@ func (b *Broker) answer(c *bconn, ver int16, corr int32, msg protocol.Message, t
 		if act.Cut == CutAt {
 			c.server.Close()
 		}
+		return
+	}
+	if act.DripAt > 0 && act.DripAt < len(frame) {
+		c.server.Write(frame[:act.DripAt])
+		t := time.NewTimer(act.DripHold)
+		select {
+		case <-t.C:
+		case <-b.done:
+			t.Stop()
+			return
+		}
+		if _, err := c.server.Write(frame[act.DripAt:]); err == nil {
+			b.mu.Lock()
+			b.seq++
+			b.anss = append(b.anss, Ans{Conn: c.idx, Corr: corr, Tag: tag, Seq: b.seq})
+			b.mu.Unlock()
+		}
+		c.mu.Lock()
+		c.answered++
+		close(c.notify)
+		c.notify = make(chan struct{})
+		c.mu.Unlock()
 		return
 	}
 	copies := 1
